@@ -276,6 +276,33 @@ def siblings_and_later_mutation(ctx, chi, rng):
              {'before': a0, 'after': ll1(x)})
 
 
+def reduced_user_model(ctx, chi, rng):
+    """the user hands chi an already reduced mechanistic model and later re-fixes / releases on it"""
+    user = chi.ReducedMechanisticModel(toy.ToyModel(1, 3, int(rng.integers(100))))
+    user.fix_parameters({'psi1': 0.5})
+    ll = chi.LogLikelihood(user, chi.GaussianErrorModel(), [1.0, 2.0, 1.5], [0.5, 1.0, 2.0])
+    pm = chi.PredictiveModel(user, [chi.GaussianErrorModel()])
+    cp = user.copy()
+    x = rng.uniform(0.5, 1.5, ll.n_parameters())
+    inp = {'object': 'objects derived from a user ReducedMechanisticModel', 'x': x}
+    ctx.case('reduced-user-model', nontrivial='reduced-user/%s' % np.round(x, 3).tolist(), sample=inp)
+    a0 = ll(x)
+    s0 = pm.sample(x, [1.0, 2.0], seed=3, return_df=False)
+    c0 = cp.simulate(x[:2], [1.0, 2.0])
+    n0 = ll.get_parameter_names()
+    user.fix_parameters({'psi1': 2.0})
+    user.fix_parameters({'psi0': 1.0})
+    user.fix_parameters({'psi1': None})
+    ctx.spec('C19.unaffected_by_later_changes_to_user_models',
+             same(ll(x), a0) and ll.get_parameter_names() == n0 and
+             same(pm.sample(x, [1.0, 2.0], seed=3, return_df=False), s0) and
+             same(cp.simulate(x[:2], [1.0, 2.0]), c0), inp, {'before': a0, 'after': ll(x)})
+    # and the other way round: changing the derived object leaves the user's model alone
+    u0 = user.parameters()
+    ll.fix_parameters({ll.get_parameter_names()[0]: 1.0})
+    ctx.spec('C19.user_models_not_modified', user.parameters() == u0, inp)
+
+
 def parallel(ctx, chi, rng, n_points=4):
     build0 = c08.make_ll(chi, rng)
     ll = build0()
@@ -314,6 +341,7 @@ def run(ctx):
             ctx.guard(model_correspondence, ctx, chi, ctx.sub_rng(10 ** 5 + i))
         if i % 10 == 0:
             ctx.guard(siblings_and_later_mutation, ctx, chi, ctx.sub_rng(10 ** 6 + i))
+            ctx.guard(reduced_user_model, ctx, chi, ctx.sub_rng(2 * 10 ** 6 + i))
     ctx.guard(parallel, ctx, chi, ctx.sub_rng(10 ** 7))
     if ctx.tier == 'thorough':
         for j in range(4):
